@@ -87,6 +87,9 @@ pub struct Opts {
     /// text sources: the rendered text ends without a final newline
     #[serde(default)]
     pub no_final_newline: bool,
+    /// with a manual zoom list: the (independent) max_zooms option is set to this as well
+    #[serde(default)]
+    pub max_zooms_with_manual: Option<u32>,
 }
 
 impl Default for Opts {
@@ -103,6 +106,7 @@ impl Default for Opts {
             source: SourceKind::Infallible,
             sorted_chroms: true,
             no_final_newline: false,
+            max_zooms_with_manual: None,
         }
     }
 }
